@@ -416,10 +416,11 @@ class Builder:
         """candidate method_signature paths: top-level fields and dotted paths through singular local messages."""
         out = []
         for f in req["fields"]:
-            if in_dep and f["name"] in RESERVED and _p(self.draw, 0.5):
+            if in_dep and f["name"] in RESERVED and (f["name"] == "self" or not self.p.get("dep_reserved_flattened_ok") or _p(self.draw, 0.5)):
                 # known finding F-dep-reserved-flattened: the parameter for a reserved-word field of a message that is
-                # not proto-plus keeps the bare name (steered away from half of the time; the oracle goes on under the
-                # offered name otherwise)
+                # not proto-plus keeps the bare name (`self` then clashes with the method's own first parameter). Steered
+                # away from; under C05 (dep_reserved_flattened_ok) only half of the time: its oracle goes on under the
+                # offered name
                 self.excluded.append("F-dep-reserved-flattened")
             elif in_dep and (f.get("repeated") or f["type"] in ("map", "message")):
                 # known finding F-dep-flattened-composite: the client assigns the parameter to the field, which a
